@@ -37,7 +37,7 @@ func init() {
 			"F2 every copy into a fixed-size pooled buffer is bounded by guards whose constants fit the buffer including the destination offset (or the buffer is re-allocated to the source length), and re-slices of pooled buffers use lengths derived from the buffer; F3 two-sided slices have ordered bounds (or the MarshalSize-of-a-header-parsed-from-the-same-bytes idiom) and length-relative bounds are tested; " +
 			"F4 results of Attributes.GetRTPHeader/GetRTCPPackets, rtcp.Unmarshal and pion/rtp Unmarshal are used only on the success branch of their error; A4 read buffers are used only as buffer[:n]; D3 no blocking send/receive on an internal channel on an API path without a close-channel case or default (no wedge).",
 		notDecided:  "crash-freedom itself: panics whose absence rests on arithmetic invariants (ring/bitmap indices seq%size, packetArrivalTimeMap capacity arithmetic, flexfec XOR lengths and constant header offsets), nil dereferences, panics inside pion/rtp and pion/rtcp, termination of loops (all loops over untrusted counts are bounded by 16-bit fields; not checked mechanically), one-sided slices s[n:] whose bound a callee computed",
-		sels:        []sel{s("W3"), s("T8"), s("N3"), s("W2"), s("X5"), s("F8"), s("X3"), s("X2"), s("A7"), s("D7"), s("T5"), s("N1"), s("N2"), s("C7"), s("A5"), so("F6"), so("F5"), so("L4", `jitterbuffer`), s("F1"), s("F2"), so("F3"), s("F4"), s("A4"), s("D3")},
+		sels:        []sel{s("W4"), s("W3"), s("T8"), s("N3"), s("W2"), s("X5"), s("F8"), s("X3"), s("X2"), s("A7"), s("D7"), s("T5"), s("N1"), s("N2"), s("C7"), s("A5"), so("F6"), so("F5"), so("L4", `jitterbuffer`), s("F1"), s("F2"), so("F3"), s("F4"), s("A4"), s("D3")},
 		assumptions: append([]string{"comparisons are credited as guards whatever their direction/strictness (a missing guard is detected, an off-by-one in a present guard is not, except for constant guards of pooled-buffer copies where the arithmetic is checked)", "two evaluations of a condition built only from parameters and constants agree (path classes are split on such conditions)"}, stdAssume...),
 	})
 	def(&propDef{
@@ -129,7 +129,7 @@ func init() {
 		explanation: "Decides the structural clauses the statement singles out: G1 — in every function that walks []*rtcp.RecvDelta with a cursor, no instruction that advances the cursor is control-dependent (post-dominator based, transitively) on a condition derived from a lookup in long-lived state (a comma-ok map lookup on a field, or a (T,bool) lookup predicate such as feedbackHistory.get): the arrival time decoded for a packet is independent of whether neighbouring packets are still in the history; " +
 			"G2 — in every symbol loop, the counter that feeds the attribution key (feedbackHistoryKey.sequenceNumber / acknowledgement.sequenceNumber) is advanced exactly once on every path through the loop body (path counting), or is the range index; F1 — every index into RecvDeltas / packet-derived slices is guarded; E2 — the flag that lets history.delete release the TWCC mapping is actually set.",
 		notDecided:  "arrival-time arithmetic (reference time ×64 ms, 250 µs deltas, RFC 8888 offsets), LRU contents of the sent-packet history, that each sent packet is reported at most once and in send order (value properties of history.buildReport), zero-valued acknowledgements emitted for unknown packets",
-		sels:        []sel{s("Z1", `inspected|\|(pkg/(rtpfb|twcc|rfc8888)|internal/cc)[.:]`), s("W2", `inspected|\|(pkg/(rtpfb|twcc|rfc8888)|internal/cc)[.:]`), s("E7"), s("X4", `inspected|\|pkg/(rtpfb|twcc|rfc8888|cc|gcc)[.:]`), s("G4", `inspected|internal/cc|rtpfb`), s("O4", `inspected|rtpfb|internal/cc`), s("O2", `inspected|rtpfb`), s("A9"), s("W1", `\|(pkg/rtpfb|internal/cc)[.:]`), s("V1", `\|(pkg/rtpfb|internal/cc)[.:]`), s("J5", `\|(pkg/rtpfb|internal/cc)[.:]`), s("F7"), s("G3", `rtpfb`), s("P3", `rtpfb\.history`), s("J3", `\|(pkg/rtpfb|internal/cc)[.:]`), so("G1"), so("G2"), so("F1", `rtpfb\.convertTWCC|FeedbackAdapter|rtpfb\.convert`), so("E2", `rtpfb\.history`), so("E1", `rtpfb\.history`)},
+		sels:        []sel{s("W4", `inspected|\|(pkg/(rtpfb|twcc|rfc8888|gcc|cc)|internal/cc)[.:]`), s("Z1", `inspected|\|(pkg/(rtpfb|twcc|rfc8888)|internal/cc)[.:]`), s("W2", `inspected|\|(pkg/(rtpfb|twcc|rfc8888)|internal/cc)[.:]`), s("E7"), s("X4", `inspected|\|pkg/(rtpfb|twcc|rfc8888|cc|gcc)[.:]`), s("G4", `inspected|internal/cc|rtpfb`), s("O4", `inspected|rtpfb|internal/cc`), s("O2", `inspected|rtpfb`), s("A9"), s("W1", `\|(pkg/rtpfb|internal/cc)[.:]`), s("V1", `\|(pkg/rtpfb|internal/cc)[.:]`), s("J5", `\|(pkg/rtpfb|internal/cc)[.:]`), s("F7"), s("G3", `rtpfb`), s("P3", `rtpfb\.history`), s("J3", `\|(pkg/rtpfb|internal/cc)[.:]`), so("G1"), so("G2"), so("F1", `rtpfb\.convertTWCC|FeedbackAdapter|rtpfb\.convert`), so("E2", `rtpfb\.history`), so("E1", `rtpfb\.history`)},
 		assumptions: std,
 	}
 	props["C16"] = &propDef{
@@ -265,6 +265,8 @@ func init() {
 	add("C02", "A7 no reader reports more bytes than the caller's buffer holds (callers re-slice the buffer with n).")
 	add("C15", "I4 from every allocation of a number, every path to a downstream write passes the SetExtension that puts the number on the packet: a pass-through decided after the allocation would consume numbers that never leave.")
 	add("C04", "T6 a ring slot whose occupant was released (directly or through a helper that releases the slot it is told to) is assigned nil or the new packet on every path to the return, or the ring is reset: no slot keeps a packet the ring no longer owns.")
+	add("C09", "W4 an interface value that a function type-asserts to a basic type T is not compared (==, !=) with a constant boxed as another type: `attr != 0` on an `any` holding a uint8 compares with int(0) and is always true — extension ID 0 (\"not negotiated\") was filed on the transport-wide-CC path and the packet refused, so feedback for it found nothing.")
+	add("C02", "W4 the same clause for the whole library.")
 	add("C20", "W3 no comparison has an unsigned non-constant operand on one side and the constant 0 on the other with `>=` or `<`: the unwrapper's underflow guard (`last+delta−2^16 >= 0`) is a question about a signed number; on unsigned fields it is always true, the subtraction wraps around 2^64 and the result is negative after the conversion back.")
 	add("C02", "W3 the same clause for the whole library: a guard that has become a tautology no longer excludes what it was written to exclude.")
 	add("C10", "Z1 a function that takes the same mutex twice with a release in between makes no store to a field of the mutex's owner, map assignment or delete on its maps, or call of its methods under the second hold that is computed from what it loaded from the owner's fields under the first: the state may have changed in between, and two callers can both finish the first half on the same snapshot (every access is locked — the race detector sees nothing).")
